@@ -7,6 +7,8 @@ package query
 //verif:harness VerifC07LimitOffset mode=bv tier=quick split=6
 //verif:harness VerifC07Percent mode=real tier=quick split=4
 //verif:harness VerifC07PercentLarge mode=real tier=quick
+//verif:setup VerifC07Setup2
+//verif:harness VerifC07TwoKeys mode=bv tier=quick split=6
 
 import (
 	"github.com/mithrandie/csvq/lib/parser"
@@ -304,5 +306,140 @@ func VerifC07Percent() {
 	}
 	verifC07CheckCut(t, out, off, want, qi == 1)
 	verifObserve("rows", int64(len(out)))
+	verifReach("end")
+}
+
+var verifC07Two []parser.SelectQuery
+var verifC07TwoSpec = []struct {
+	src                                  string
+	desc1, nullsFirst1, desc2, nullsFirst2 bool
+}{
+	{"select id, k, m from t order by k, m", false, true, false, true},
+	{"select id, k, m from t order by k desc, m", true, false, false, true},
+	{"select id, k, m from t order by k nulls last, m desc", false, false, true, false},
+	{"select id, k, m from t order by k desc nulls first, m desc nulls first", true, true, true, true},
+	// DISTINCT after an analytic function cached per-cell sort keys, then ORDER BY
+	{"select distinct id, k, m, count(*) over (partition by k) from t order by k, m", false, true, false, true},
+	// the same with duplicate rows to merge: only k is selected (checked separately below)
+	{"select distinct k, count(*) over (partition by k) from t order by k", false, true, false, true},
+}
+
+func VerifC07Setup2() {
+	for _, q := range verifC07TwoSpec {
+		verifC07Two = append(verifC07Two, verifParseSelect(q.src))
+	}
+}
+
+// ORDER BY with two keys, every combination of directions and NULL positions from a menu, over
+// n <= 3 rows (thorough 4) whose keys are NULL or any int64 (the first key from a small range, so
+// that ties on it are explored): the output is a permutation in which no row precedes one that
+// sorts strictly before it lexicographically.
+func VerifC07TwoKeys() {
+	tx := verifNewTx()
+	scope := NewReferenceScope(tx)
+	qi := verifChoice("query", len(verifC07TwoSpec))
+	n := 1 + verifChoice("n", verifBound(3, 4))
+	kvals := 2
+	if qi == 5 {
+		// duplicates to merge plus three distinct keys need four rows; the second key is unused
+		n, kvals = 4, 3
+	}
+	kn, mn := make([]bool, n), make([]bool, n)
+	kv, mv := make([]int64, n), make([]int64, n)
+	rows := make([][]value.Primary, n)
+	for i := 0; i < n; i++ {
+		kn[i] = verifBool("k.null")
+		kv[i] = int64(verifChoice("k", kvals))
+		if qi != 5 {
+			mn[i], mv[i] = verifBool("m.null"), verifInt64("m")
+		}
+		var k, m value.Primary = value.NewInteger(kv[i]), value.NewInteger(mv[i])
+		if kn[i] {
+			k = value.NewNull()
+		}
+		if mn[i] {
+			m = value.NewNull()
+		}
+		rows[i] = []value.Primary{value.NewInteger(int64(i)), k, m}
+	}
+	if qi == 5 {
+		// k as the leading column, as in the result of the DISTINCT query
+		for i := range rows {
+			rows[i][0], rows[i][1] = rows[i][1], rows[i][0]
+		}
+		verifTempTable(scope, "t", []string{"k", "id", "m"}, rows)
+	} else {
+		verifTempTable(scope, "t", []string{"id", "k", "m"}, rows)
+	}
+	sp := verifC07TwoSpec[qi]
+	view, err := Select(verifCtx(), scope, verifC07Two[qi])
+	verifAssert("select succeeds", err == nil)
+	if err != nil {
+		return
+	}
+	if qi == 5 {
+		// one row per distinct k (NULL counts as one value), NULL first, then ascending
+		for i := 0; i+1 < view.RecordLen(); i++ {
+			a, b := view.RecordSet[i][0][0], view.RecordSet[i+1][0][0]
+			ai, aok := a.(*value.Integer)
+			bi, bok := b.(*value.Integer)
+			verifAssert("distinct keys in ascending order, NULL first", bok && (!aok || ai.Raw() < bi.Raw()))
+		}
+		for i := 0; i < n; i++ {
+			found := false
+			for j := 0; j < view.RecordLen(); j++ {
+				c, ok := view.RecordSet[j][0][0].(*value.Integer)
+				if (kn[i] && !ok) || (!kn[i] && ok && c.Raw() == kv[i]) {
+					found = true
+				}
+			}
+			verifAssert("every key value appears", found)
+		}
+		verifObserve("rows", int64(view.RecordLen()))
+		verifReach("end")
+		return
+	}
+	verifAssert("all rows kept", view.RecordLen() == n)
+	// cmp: -1 a before b, 0 tie, 1 a after b
+	cmp := func(an, bn bool, av, bv int64, desc, nullsFirst bool) int {
+		switch {
+		case an && bn:
+			return 0
+		case an:
+			if nullsFirst {
+				return -1
+			}
+			return 1
+		case bn:
+			if nullsFirst {
+				return 1
+			}
+			return -1
+		case av == bv:
+			return 0
+		case (av < bv) != desc:
+			return -1
+		}
+		return 1
+	}
+	seen := make([]bool, n)
+	prev := -1
+	for i := 0; i < view.RecordLen() && i < n; i++ {
+		id := int(view.RecordSet[i][0][0].(*value.Integer).Raw())
+		verifAssert("row comes from the input, once", id >= 0 && id < n && !seen[id])
+		if id < 0 || id >= n {
+			return
+		}
+		seen[id] = true
+		if prev >= 0 {
+			c := cmp(kn[prev], kn[id], kv[prev], kv[id], sp.desc1, sp.nullsFirst1)
+			if c == 0 {
+				c = cmp(mn[prev], mn[id], mv[prev], mv[id], sp.desc2, sp.nullsFirst2)
+			}
+			verifAssert("adjacent rows in lexicographic order", c <= 0)
+		}
+		prev = id
+		verifObserve("id", int64(id))
+	}
 	verifReach("end")
 }
